@@ -851,16 +851,26 @@ theorem parseRefF_ok_inv {n : Nat} {s : Str} {t : Token} (h : parseRefF n s = .o
         | cons _ _ => simp
   · simp at h
 
+/-- The final step of `parse_ref`: a single token stays, several become `combined`. -/
+def pack : List Token → Token
+  | [t] => t
+  | ts => .combined ts
+
 theorem parseRefF_of_items {n : Nat} {s : Str} {ts : List Token}
     (h : items n s = .ok (ts, [])) (hne : ts ≠ []) :
-    parseRefF n s = .ok (match coalesce ts with | [t] => t | ts' => .combined ts') := by
+    parseRefF n s = .ok (pack (coalesce ts)) := by
   unfold parseRefF
   rw [h]
   cases ts with
   | nil => exact absurd rfl hne
   | cons a r =>
     simp only
-    split <;> simp_all
+    cases hc : coalesce (a :: r) with
+    | nil => rfl
+    | cons b r' =>
+      cases r' with
+      | nil => rfl
+      | cons _ _ => rfl
 
 theorem wfTop_of_wfInner {t : Token} (h : t.wfInner = true) : t.wfTop = true := by
   cases t with
@@ -1006,37 +1016,23 @@ theorem refItems_close {n : Nat} (r : Str) : refItems (n + 2) ('}' :: r) = .ok (
 theorem containsMarker_cons (c : Char) (cs : Str) :
     containsMarker (c :: cs) =
       (startsWith (c :: cs) ['$', '{'] || startsWith (c :: cs) ['$', '['] || containsMarker cs) := by
-  unfold containsMarker
-  split
-  · rename_i heq; cases heq
-  · rename_i r heq
-    simp only [List.cons.injEq] at heq
-    obtain ⟨h1, h2⟩ := heq
-    subst h1 h2
-    simp [startsWith]
-  · rename_i r heq
-    simp only [List.cons.injEq] at heq
-    obtain ⟨h1, h2⟩ := heq
-    subst h1 h2
-    simp [startsWith]
-  · rename_i c' cs' h1 h2 heq
-    simp only [List.cons.injEq] at heq
-    obtain ⟨h3, h4⟩ := heq
-    subst h3 h4
-    have e1 : startsWith (c' :: cs') ['$', '{'] = false := by
-      cases hb : startsWith (c' :: cs') ['$', '{'] with
-      | false => rfl
-      | true =>
-        obtain ⟨r, hr⟩ := (startsWith_iff_prefix _ _).1 hb
-        exact absurd hr.symm (h1 r)
-    have e2 : startsWith (c' :: cs') ['$', '['] = false := by
-      cases hb : startsWith (c' :: cs') ['$', '['] with
-      | false => rfl
-      | true =>
-        obtain ⟨r, hr⟩ := (startsWith_iff_prefix _ _).1 hb
-        exact absurd hr.symm (h2 r)
-    rw [e1, e2]
-    cases cs' <;> simp [containsMarker]
+  cases cs with
+  | nil => simp [containsMarker, startsWith]
+  | cons d ds =>
+    by_cases hc : c = '$'
+    · subst hc
+      by_cases hd : d = '{'
+      · subst hd; simp [containsMarker, startsWith]
+      · by_cases hd2 : d = '['
+        · subst hd2; simp [containsMarker, startsWith]
+        · rw [containsMarker.eq_4]
+          · simp [startsWith, hd, hd2]
+          · intro r _ h; simp only [List.cons.injEq] at h; exact hd h.1
+          · intro r _ h; simp only [List.cons.injEq] at h; exact hd2 h.1
+    · rw [containsMarker.eq_4]
+      · simp [startsWith, hc]
+      · intro r h _; exact hc h
+      · intro r h _; exact hc h
 
 theorem containsMarker_iff (s : Str) :
     containsMarker s = true ↔
@@ -1090,5 +1086,102 @@ theorem parse_error_of {s : Str} {n : Nat} (hm : containsMarker s = true)
   have h1 : parseRefF (parseFuel s) s = .error .fail := by
     rw [parseRefF_parseFuel (n := n) (by rw [h]; simp), h]
   simp [Token.parse, hm, h1]
+
+/-- A grammar that cannot succeed at any fuel is an error of `Token.parse`. -/
+theorem parse_error_of_forall {s : Str} (hm : containsMarker s = true)
+    (h : ∀ n t, parseRefF n s ≠ .ok t) : Token.parse s = .error (.parse s) := by
+  cases hp : parseRefF (parseFuel s) s with
+  | ok t => exact absurd hp (h _ t)
+  | error e =>
+    cases e with
+    | fuel => exact absurd hp (parseRefF_fuel_enough (by unfold parseFuel; omega))
+    | fail => exact parse_error_of hm hp
+
+/-! ### A `${` that cannot be completed makes the whole parse fail -/
+
+theorem items_stuck_open {r : Str}
+    (hno : ∀ n t rest, reference n ('$' :: '{' :: r) ≠ .ok (t, rest)) :
+    ∀ n ts rest, items n ('$' :: '{' :: r) = .ok (ts, rest) → rest = '$' :: '{' :: r := by
+  intro n ts rest h
+  cases n with
+  | zero => simp [items] at h
+  | succ n =>
+    cases hr : reference n ('$' :: '{' :: r) with
+    | error e =>
+      cases e with
+      | fuel => rw [items_fuel hr] at h; simp at h
+      | fail =>
+        rw [items_stop hr (stringP_open r)] at h
+        simp only [Except.ok.injEq, Prod.mk.injEq] at h
+        exact h.2.symm
+    | ok p => exact absurd hr (hno n p.1 p.2)
+
+theorem items_run_stuck_open {pre r : Str} (hpre : ∀ c ∈ pre, c ≠ '$' ∧ c ≠ '\\')
+    (hno : ∀ n t rest, reference n ('$' :: '{' :: r) ≠ .ok (t, rest)) :
+    ∀ n ts rest, items n (pre ++ '$' :: '{' :: r) = .ok (ts, rest) → rest = '$' :: '{' :: r := by
+  intro n ts rest h
+  by_cases hne : pre = []
+  · subst hne; exact items_stuck_open hno n ts rest h
+  · match n, h with
+    | 0, h => simp [items] at h
+    | 1, h => rw [items_fuel (reference.eq_1 _)] at h; simp at h
+    | n + 2, h =>
+      rw [items_run hne hpre (contentStep_open r)] at h
+      obtain ⟨ts', _, h'⟩ := consTok_eq_ok h
+      exact items_stuck_open hno _ _ _ h'
+
+/-- After a run of ordinary text, a `${` from which `reference` can never succeed is
+neither skipped nor taken as text: `Token.parse` fails. -/
+theorem parse_stuck_open {pre r : Str} (hpre : ∀ c ∈ pre, c ≠ '$' ∧ c ≠ '\\')
+    (hno : ∀ n t rest, reference n ('$' :: '{' :: r) ≠ .ok (t, rest)) :
+    Token.parse (pre ++ '$' :: '{' :: r) = .error (.parse (pre ++ '$' :: '{' :: r)) := by
+  apply parse_error_of_forall (containsMarker_open pre r)
+  intro n t hp
+  obtain ⟨ts, hi, _, _⟩ := parseRefF_ok_inv hp
+  have := items_run_stuck_open hpre hno n ts [] hi
+  cases this
+
+/-- A reference can only succeed if a `}` follows its `${`. -/
+theorem reference_needs_close {n : Nat} {r rest : Str} {t : Token}
+    (h : reference n ('$' :: '{' :: r) = .ok (t, rest)) : '}' ∈ r := by
+  obtain ⟨m, r', ts, _, hi, hri, _, _⟩ := reference_ok_inv h
+  simp only [List.cons.injEq, true_and] at hi
+  subst hi
+  exact (refItems_suffix hri).subset List.mem_cons_self
+
+/-- `${}` is never a reference. -/
+theorem reference_empty_fails {n : Nat} {post rest : Str} {t : Token} :
+    reference n ('$' :: '{' :: '}' :: post) ≠ .ok (t, rest) := by
+  intro h
+  obtain ⟨m, r', ts, _, hi, hri, hne, _⟩ := reference_ok_inv h
+  simp only [List.cons.injEq, true_and] at hi
+  subst hi
+  match m, hri with
+  | 0, hri => simp [refItems] at hri
+  | 1, hri => rw [refItems_fuel (reference.eq_1 _)] at hri; simp at hri
+  | m + 2, hri =>
+    rw [refItems_close] at hri
+    simp only [Except.ok.injEq, Prod.mk.injEq] at hri
+    exact hne hri.1.symm
+
+/-! ### A simple `${path}` -/
+
+theorem refItems_simple {n : Nat} {path post : Str} (hne : path ≠ [])
+    (hp : ∀ c ∈ path, c ≠ '$' ∧ c ≠ '\\' ∧ c ≠ '}') :
+    refItems (n + 3) (path ++ '}' :: post) = .ok ([.lit path], '}' :: post) := by
+  rw [refItems_run hne hp (refStringStep_close post), refItems_close]; rfl
+
+theorem reference_simple {n : Nat} {path post : Str} (hne : path ≠ [])
+    (hp : ∀ c ∈ path, c ≠ '$' ∧ c ≠ '\\' ∧ c ≠ '}') :
+    reference (n + 4) ('$' :: '{' :: (path ++ '}' :: post)) = .ok (.ref [.lit path], post) := by
+  rw [reference_of_refItems (refItems_simple hne hp) (by simp)]; rfl
+
+theorem items_tail {n : Nat} {post : Str} (hp : ∀ c ∈ post, c ≠ '$' ∧ c ≠ '\\') :
+    items (n + 3) post = .ok (if post = [] then [] else [.lit post], []) := by
+  by_cases h : post = []
+  · subst h; exact items_nil
+  · have := items_run (n := n + 1) (rest := []) h hp contentStep_nil
+    rw [List.append_nil, items_nil] at this
+    rw [this, if_neg h]; rfl
 
 end Reclass
